@@ -175,3 +175,104 @@ contract(
     emits=["safe-close", "close-channel"],
     from_property="close everything on every exit path (specs.py SubprocSpec.close; idempotent)",
 )
+
+
+# ---- cmds_to_specs: whatever fails while the stages are being built and wired, every stage built so far is closed ---------------------
+# (the try-body is abstracted here - it is verified for C07/C10 - so this contract is about the handler alone: statements of the body may
+#  do anything to the list of stages and may raise anything)
+SP = "xonsh/procs/specs.py::"
+CLEAN_EXT = {
+    "SubprocSpec.close": Ext(event="close-spec", log="recv", log_type=SPEC, note="its own contract: releases all handles and channels, idempotent"),
+    "_update_last_spec": Ext(raises=["Exception+"]),
+}
+_BODY = [dict(line_contains=k, may_raise=True, havoc=["specs"], reason="try-body statement (verified for C07 / C10); may raise anything")
+         for k in ("for i, cmd in enumerate(cmds):", "for i, redirect in enumerate(redirects):", "for spec in specs:", "if not XSH.env.get(", "if len(specs) > 1:")]
+contract(
+    SP + "cmds_to_specs", "C09", variant_id="cleanup", params=dict(cmds=Seq(Opaque("cmd")), captured=Union(Bool, Str), envs=Opaque("envs"), in_boolop=Bool),
+    externals=CLEAN_EXT, locals={"specs": List(SPEC), "redirects": List(Str)}, returns=List(SPEC),
+    abstract=_BODY,
+    loops={"for#5": dict(invariant={"closed-so-far-in-order": "log('close-spec') == specs[:_i]"}, havoc_only=[])},
+    raises={"BaseException+": True},
+    ensures={"nothing-is-closed-on-success": "len(log('close-spec')) == 0"},
+    ensures_exc_locals={"every-stage-built-so-far-is-closed-exactly-once-in-order-before-the-error-escapes": "log('close-spec') == specs"},
+    emits=["close-spec"],
+    from_property="After any command or pipeline finishes - ... with a failure ... - the shell process holds no additional open file descriptors "
+                  "(a pipeline that cannot be wired, e.g. an unknown redirect or two redirections of one stream, closes every pipe end and file it had opened)",
+)
+
+
+# ---- safe_fdclose: the one place where pipeline code closes files - never the shell's own streams, never twice, never raising ----------
+RD = "xonsh/procs/readers.py::"
+CACHE = Opaque("closecache")
+FD_EXT = {
+    "closecache.get": Ext(ret=Bool, pure=True, uf="recorded_closed", note="ghost read: the handle is recorded in the pipeline's cache as already closed successfully"),
+    "recorded_closed": Ext(ret=Bool, pure=True, uf="recorded_closed", args=[CACHE, HS]),
+    "closecache.__setitem__": Ext(event="record", log=0, log_type=HS),
+    "os.close": Ext(event="close-fd", log=0, log_type=Int, raises=["OSError"]),
+    "stream.close": Ext(event="close-stream", log="recv", log_type=STREAM, raises=["OSError"]),
+}
+contract(
+    RD + "safe_fdclose", "C09", params=dict(handle=HS, cache=Union(NoneT, CACHE)), globals={"sys.stdin": STREAM, "sys.stdout": STREAM, "sys.stderr": STREAM},
+    externals=FD_EXT, emits=["close-fd", "close-stream", "record"],
+    ensures={
+        "the-shell's-own-descriptors-0-1-2-are-never-closed": "forall(lambda k: log('close-fd')[k] >= 3, 0, len(log('close-fd')))",
+        "the-shell's-own-standard-streams-are-never-closed":
+            "forall(lambda k: log('close-stream')[k] != sys.stdin and log('close-stream')[k] != sys.stdout and log('close-stream')[k] != sys.stderr, 0, len(log('close-stream')))",
+        "a-handle-recorded-as-closed-is-not-closed-again (a recycled descriptor number would be closed by mistake)":
+            "implies(cache is not None and recorded_closed(cache, handle, False), len(log('close-fd')) == 0 and len(log('close-stream')) == 0)",
+        "at-most-one-close-and-only-of-the-handle-given":
+            "len(log('close-fd')) + len(log('close-stream')) <= 1 and forall(lambda k: log('close-fd')[k] == handle, 0, len(log('close-fd'))) "
+            "and forall(lambda k: log('close-stream')[k] == handle, 0, len(log('close-stream')))",
+        "a-closable-handle-not-yet-recorded-IS-closed":
+            "implies(handle is not None and not (cache is not None and recorded_closed(cache, handle, False)) and not (isinstance(handle, int) and handle < 3) "
+            "and handle != sys.stdin and handle != sys.stdout and handle != sys.stderr, len(log('close-fd')) + len(log('close-stream')) == 1)",
+    },
+    from_property="the shell process holds no additional open file descriptors ... and its own standard streams are unchanged (a failing close is swallowed: no exception may "
+                  "interrupt the closing of the remaining handles)",
+)
+
+
+# ---- CommandPipeline._safe_close / _end / end: the closing steps run on EVERY exit of the drain, exactly once ---------------------------
+PL2 = Obj("CommandPipeline", proc=Union(NoneT, Opaque("proc")), ended=Bool, _closed_handle_cache=CACHE)
+contract(
+    P + "CommandPipeline._safe_close", "C09", params=dict(self=PL2, handle=HS), globals={"sys.stdin": STREAM, "sys.stdout": STREAM, "sys.stderr": STREAM},
+    externals=FD_EXT, calls={"safe_fdclose": RD + "safe_fdclose"}, emits=["close-fd", "close-stream", "record"],
+    ensures={"an-integer-descriptor-is-never-closed-here (it belongs to a PipeChannel, which closes it once)": "len(log('close-fd')) == 0",
+             "at-most-one-stream-and-only-the-handle-given": "len(log('close-stream')) <= 1 and forall(lambda k: log('close-stream')[k] == handle, 0, len(log('close-stream')))",
+             "never-the-shell's-own-standard-streams":
+                 "forall(lambda k: log('close-stream')[k] != sys.stdin and log('close-stream')[k] != sys.stdout and log('close-stream')[k] != sys.stderr, 0, len(log('close-stream')))"},
+    from_property="no additional open file descriptors ... its own standard streams unchanged (descriptor numbers may be recycled: only their owner closes them)",
+)
+END_EXT = {
+    "hasattr": Ext(ret=Bool, pure=True, uf="has_attr", args=[Union(NoneT, Opaque("proc")), Str], ensures=["implies(a0 is None, not result)"], note="None has no such attribute"),
+    "has_attr": Ext(ret=Bool, pure=True, uf="has_attr", args=[Union(NoneT, Opaque("proc")), Str]), "prevs_closed": Ext(ret=Bool, pure=True, uf="prevs_closed", args=[Opaque("proc")]),
+    "proc.prevs_are_closed": Ext(ret=Bool, pure=True, attr=True, uf="prevs_closed", args=[Opaque("proc")]),
+    "CommandPipeline._close_prev_procs": Ext(event="close-prevs", log="const", log_type=Int, note="ASSUMED not to raise (waits swallow BaseException, safe_fdclose swallows OSError: their own contracts)"),
+    "CommandPipeline._close_proc": Ext(event="close-last", log="const", log_type=Int, note="ASSUMED not to raise (same)"),
+    "CommandPipeline._check_signal": Ext(), "CommandPipeline._apply_to_history": Ext(), "CommandPipeline._apply_to_thread_local": Ext(),
+    "CommandPipeline._raise_subproc_error": Ext(raises=["Exception+"], note="its own contract (C05/C09): CalledProcessError after the terminal was returned"),
+    "CommandPipeline._endtime": Ext(), "CommandPipeline._set_input": Ext(raises=["Exception+"]),
+}
+_CLOSED = {"the-last-stage-is-closed-exactly-once": "len(log('close-last')) == 1",
+           "the-earlier-stages-are-closed-unless-the-reader-already-did": "len(log('close-prevs')) == (0 if (self.proc is not None and has_attr(self.proc, 'prevs_are_closed') and prevs_closed(self.proc)) else 1)",
+           "the-pipeline-is-marked-ended": "self.ended"}
+contract(
+    P + "CommandPipeline._end", "C09", params=dict(self=PL2, tee_output=Bool), externals=END_EXT, emits=["close-prevs", "close-last"],
+    abstract=[dict(line_contains="if tee_output:", may_raise="BaseException", reason="draining the output (reader threads, C06); may be interrupted by anything, KeyboardInterrupt included")],
+    modifies=["self.ended"],
+    raises={"BaseException+": True},
+    ensures=_CLOSED, ensures_exc=_CLOSED,
+    assumptions=["_close_prev_procs / _close_proc do not raise"],
+    from_property="After any command or pipeline finishes - successfully, with a failure, ... or interrupted - the shell process holds no additional open file descriptors "
+                  "(the closing steps sit in a finally: they run on every exit of the drain, once)",
+)
+contract(
+    P + "CommandPipeline.end", "C09", params=dict(self=PL2, tee_output=Bool),
+    externals={"CommandPipeline._end": Ext(event="end", log="const", log_type=Int, raises=["BaseException+"], havoc=["self"]),
+               "CommandPipeline._return_terminal": Ext(event="return-terminal", log="const", log_type=Int)},
+    modifies=["self"], raises={"BaseException+": True}, emits=["end", "return-terminal"],
+    ensures={"an-ended-pipeline-is-not-ended-twice (its handles are closed: a second drain would read closed pipes)": "implies(old(self.ended), len(log('end')) == 0 and len(log('return-terminal')) == 0)",
+             "otherwise-it-is-ended-once-and-the-terminal-goes-back-once": "implies(not old(self.ended), len(log('end')) == 1 and len(log('return-terminal')) == 1)"},
+    ensures_exc={"the-closing-steps-were-attempted-once": "len(log('end')) == 1"},
+    from_property="terminal ownership ... unchanged after any command finishes",
+)
